@@ -270,6 +270,7 @@ def run(chk):
     if not quick and r['ok'] and not coqchk(chk):
         r = dict(r, ok=False, log=r['log'] + '\ncoqchk rejected the compiled proofs')
     impl, model = build(chk)
+    G.anchor_drift(vlib, chk)
     chk.cov['trusted_base'] += ['extraction: ExtrOcamlBasic only, no Extract Constant/Inductive of our own',
                                 'ocaml/driver_c05.ml (parse + print), harness/c05_probe.c + c05_asm.S (assembly probe), '
                                 'tools/gen_c05_cases.py (MIR text generation, image comparison), GNU as, gcc 12']
